@@ -365,7 +365,7 @@ class ThermochemIncomplete(ThermochemBase):
                     'H_ref: %s' % (R*T_ref *
                                    self.ND_H_ref).fmt_in_units(H_units))
             else:
-                lines.append('ND_H_ref: %r' % self.ND_H_ref)
+                lines.append('ND_H_ref: %r' % float(self.ND_H_ref))
 
         if self.has_ND_S():
             S_units = units.get('molar entropy')
@@ -373,7 +373,7 @@ class ThermochemIncomplete(ThermochemBase):
                 lines.append(
                     'S_ref: %s' % (R*self.ND_S_ref).fmt_in_units(S_units))
             else:
-                lines.append('ND_S_ref: %r' % self.ND_S_ref)
+                lines.append('ND_S_ref: %r' % float(self.ND_S_ref))
 
         if self.has_ND_Cp():
             Cp_units = units.get('molar heat capacity')
@@ -388,7 +388,7 @@ class ThermochemIncomplete(ThermochemBase):
                 for T in sorted(self.ND_Cp_data):
                     lines.append('    - [%s, %r]' % (
                         with_units(T, 'K').fmt_in_units(T_units),
-                        self.ND_Cp_data[T]))
+                        float(self.ND_Cp_data[T])))
 
         range = self.get_range()
         if range is not None:
